@@ -119,10 +119,23 @@ func trunc(p []byte) []byte {
 
 func tagOf(g, s int) byte { return byte(1 + g*maxWritesPerWriterB + s) }
 
-const (
-	stallBoundB      = 30 * time.Second // a whole run normally takes well under 10 ms
-	afterCloseBoundB = 15 * time.Second
+// Liveness bounds (real time). A whole run normally takes well under 10 ms; the bounds are the
+// "missed once, waited once more" form of the harness rule. After the first miss in a process the
+// bounds drop so that rapid's shrinking of a hanging case does not cost a minute per attempt.
+var (
+	stallBoundB      atomic.Int64
+	afterCloseBoundB atomic.Int64
 )
+
+func init() {
+	stallBoundB.Store(int64(60 * time.Second))
+	afterCloseBoundB.Store(int64(30 * time.Second))
+}
+
+func livenessMissed() {
+	stallBoundB.Store(int64(3 * time.Second))
+	afterCloseBoundB.Store(int64(2 * time.Second))
+}
 
 func runPlanB(p planB) (viol string, ci caseInfoB) {
 	a, b := netio.NewPipe()
@@ -195,6 +208,7 @@ func runPlanB(p planB) (viol string, ci caseInfoB) {
 	var writes [2][]*wrecB   // per direction
 	var chunks [2][][]chunkB // per direction, per reader goroutine
 	var timeouts atomic.Int64
+	var wTimeouts, rTimeouts, wClosed, rClosed [2]atomic.Int64 // per direction
 	for e := range ends {
 		ep := p.Ends[e]
 		c := ends[e]
@@ -227,9 +241,12 @@ func runPlanB(p planB) (viol string, ci caseInfoB) {
 					r.n, r.err = c.Write(buf)
 					r.after = clock.Add(1)
 					switch classify(r.err) {
-					case eNil, eClosed:
+					case eNil:
+					case eClosed:
+						wClosed[e].Add(1)
 					case eTimeout:
 						timeouts.Add(1)
+						wTimeouts[e].Add(1)
 						c.SetWriteDeadline(time.Time{})
 					default:
 						fail(fmt.Sprintf("SIG=C15/B/write-error-class end %d writer %d write %d (len %d) returned n=%d err=%v", e, r.g, r.s, r.size, r.n, r.err))
@@ -248,8 +265,12 @@ func runPlanB(p planB) (viol string, ci caseInfoB) {
 						sk.last = clock.Add(1)
 						_, err := c.WriteTo(sk)
 						cl := classify(err)
+						if cl == eClosed {
+							rClosed[d].Add(1)
+						}
 						if cl == eTimeout {
 							timeouts.Add(1)
+							rTimeouts[d].Add(1)
 							c.SetReadDeadline(time.Time{})
 							onOp()
 							continue
@@ -296,8 +317,12 @@ func runPlanB(p planB) (viol string, ci caseInfoB) {
 					case eNil:
 					case eTimeout:
 						timeouts.Add(1)
+						rTimeouts[d].Add(1)
 						c.SetReadDeadline(time.Time{})
 					case eEOF, eClosed:
+						if classify(err) == eClosed {
+							rClosed[d].Add(1)
+						}
 						if n != 0 {
 							fail(fmt.Sprintf("SIG=C15/B/read-n-with-error end %d reader %d Read returned n=%d err=%v", e, ri, n, err))
 						}
@@ -316,17 +341,19 @@ func runPlanB(p planB) (viol string, ci caseInfoB) {
 	stalled := false
 	select {
 	case <-finished:
-	case <-time.After(stallBoundB):
+	case <-time.After(time.Duration(stallBoundB.Load())):
 		stalled = true
 	}
 	a.Close()
 	b.Close()
 	if stalled {
+		sb, ab := time.Duration(stallBoundB.Load()), time.Duration(afterCloseBoundB.Load())
+		livenessMissed()
 		select {
 		case <-finished:
-			return fmt.Sprintf("VERIF-VIOLATION SIG=C15/B/stalled calls made no progress for %v although a reader was always reading and only closing both ends released them; plan=%s", stallBoundB, jsonOf(p)), ci
-		case <-time.After(afterCloseBoundB):
-			return fmt.Sprintf("VERIF-VIOLATION SIG=C15/blocked-after-close calls still blocked %v after Close of both ends; plan=%s", afterCloseBoundB, jsonOf(p)), ci
+			return fmt.Sprintf("VERIF-VIOLATION SIG=C15/B/stalled calls did not finish within %v although every end had a reader running until EOF/close; only closing both ends released them; plan=%s", sb, jsonOf(p)), ci
+		case <-time.After(ab):
+			return fmt.Sprintf("VERIF-VIOLATION SIG=C15/blocked-after-close calls still blocked %v after Close of both ends; plan=%s", ab, jsonOf(p)), ci
 		}
 	}
 	if viol != "" {
@@ -349,6 +376,40 @@ func runPlanB(p planB) (viol string, ci caseInfoB) {
 	ci.Timeouts = int(timeouts.Load())
 	if ci.Timeouts > 0 && !deadlineSet {
 		return fmt.Sprintf("SIG=C15/B/timeout-without-deadline %d calls timed out but no deadline was ever set; plan=%s", ci.Timeouts, jsonOf(p)), ci
+	}
+	// every failure has a cause in the plan: the only closes that can hit a running call are the
+	// chaos ones (the last writer's CloseWrite comes after its end's writes), the only deadlines the chaos ones
+	for d := range 2 {
+		var closeW, closeR, wdl, rdl bool
+		for _, c := range p.Chaos {
+			switch c.Op {
+			case opClose:
+				closeW = true
+				closeR = closeR || c.End == 1-d
+			case opCloseWrite:
+				closeW = closeW || c.End == d
+			case opCloseRead:
+				closeW = closeW || c.End == 1-d
+				closeR = closeR || c.End == 1-d
+			case opSetWD:
+				wdl = wdl || (c.End == d && c.DL != dlZero)
+			case opSetRD:
+				rdl = rdl || (c.End == 1-d && c.DL != dlZero)
+			case opSetD:
+				wdl = wdl || (c.End == d && c.DL != dlZero)
+				rdl = rdl || (c.End == 1-d && c.DL != dlZero)
+			}
+		}
+		switch {
+		case wClosed[d].Load() > 0 && !closeW:
+			return fmt.Sprintf("SIG=C15/B/write-failed-without-close direction %d: %d writes failed with ErrClosedPipe although nothing closed this direction before they returned; plan=%s", d, wClosed[d].Load(), jsonOf(p)), ci
+		case rClosed[d].Load() > 0 && !closeR:
+			return fmt.Sprintf("SIG=C15/B/read-closed-without-closeread direction %d: %d readers got ErrClosedPipe instead of EOF although their end never called CloseRead/Close; plan=%s", d, rClosed[d].Load(), jsonOf(p)), ci
+		case wTimeouts[d].Load() > 0 && !wdl:
+			return fmt.Sprintf("SIG=C15/B/write-timeout-without-deadline direction %d: %d writes timed out although no write deadline was set on that end; plan=%s", d, wTimeouts[d].Load(), jsonOf(p)), ci
+		case rTimeouts[d].Load() > 0 && !rdl:
+			return fmt.Sprintf("SIG=C15/B/read-timeout-without-deadline direction %d: %d reads timed out although no read deadline was set on that end; plan=%s", d, rTimeouts[d].Load(), jsonOf(p)), ci
+		}
 	}
 	for d := range 2 {
 		if v := checkDirectionB(d, writes[d], chunks[d], &ci); v != "" {
